@@ -1,97 +1,162 @@
 //go:build verif
 
 // Contracts for package packets1, read by /verif/govc (comment-only file).
+// Field positions are taken from MQTT-SN 1.2 section 5.4 (and the AUTH
+// extension's layout), not from the code.
 
 package packets1
 
+//@ spec be16(b []byte, i int) uint16 = (uint16(b[i]) << 8) | uint16(b[i+1])
+//@ spec fQOS(f uint8) uint8 = (f & 0x60) >> 5
+//@ spec fDUP(f uint8) bool = (f & 0x80) != 0
+//@ spec fRetain(f uint8) bool = (f & 0x10) != 0
+//@ spec fWill(f uint8) bool = (f & 0x08) != 0
+//@ spec fClean(f uint8) bool = (f & 0x04) != 0
+//@ spec fTIT(f uint8) uint8 = f & 0x03
+//@ spec hdrOnWire(b []byte) int = ite(b[0] == 1, 4, 2)
+
+// MsgType codes, MQTT-SN 1.2 table 3 (AUTH: 0x03 per the v2.0 draft the project follows)
+//@ spec wireType(p iface) uint8 = ite(istype(p, *Advertise), 0x00, ite(istype(p, *SearchGw), 0x01, ite(istype(p, *GwInfo), 0x02,
+//@   ite(istype(p, *Auth), 0x03, ite(istype(p, *Connect), 0x04, ite(istype(p, *Connack), 0x05, ite(istype(p, *WillTopicReq), 0x06,
+//@   ite(istype(p, *WillTopic), 0x07, ite(istype(p, *WillMsgReq), 0x08, ite(istype(p, *WillMsg), 0x09, ite(istype(p, *Register), 0x0A,
+//@   ite(istype(p, *Regack), 0x0B, ite(istype(p, *Publish), 0x0C, ite(istype(p, *Puback), 0x0D, ite(istype(p, *Pubcomp), 0x0E,
+//@   ite(istype(p, *Pubrec), 0x0F, ite(istype(p, *Pubrel), 0x10, ite(istype(p, *Subscribe), 0x12, ite(istype(p, *Suback), 0x13,
+//@   ite(istype(p, *Unsubscribe), 0x14, ite(istype(p, *Unsuback), 0x15, ite(istype(p, *Pingreq), 0x16, ite(istype(p, *Pingresp), 0x17,
+//@   ite(istype(p, *Disconnect), 0x18, ite(istype(p, *WillTopicUpd), 0x1A, ite(istype(p, *WillTopicResp), 0x1B, ite(istype(p, *WillMsgUpd), 0x1C,
+//@   ite(istype(p, *WillMsgResp), 0x1D, 0xFF))))))))))))))))))))))))))))
+
 //@ func ReadPacket
 //@   nopanic [C20]
+//@   at Unpack.0 before let d = arg(1)
+//@   at NewPacketWithHeader.0 after let created = ret
+//@   at Unpack.1 before assert [C22] body_after_actual_header: sameSlice(arg(1), d[hdrOnWire(d):])
+//@   at Unpack.1 before assert [C22] type_at_its_position: wireType(arg(0)) == d[hdrOnWire(d)-1]
+//@   ensures [C22] returns_decoded: err == nil ==> pkt != nil
 
 //@ func NewPacketWithHeader
 //@   nopanic [C20]
 //@   ensures [C20] nonnil: err == nil ==> pkt != nil && fresh(pkt)
+//@   ensures [C22] type: err == nil ==> wireType(pkt) == h.pktType
 
 //@ func (*Advertise).Unpack
 //@   nopanic [C20]
 //@   assigns p.GatewayID, p.Duration
-//@ func (*Auth).Unpack
-//@   nopanic [C20]
-//@   assigns p.Reason, p.Method, p.Data
-//@ func (*Connack).Unpack
-//@   nopanic [C20]
-//@   assigns p.ReturnCode
-//@ func (*Connect).Unpack
-//@   nopanic [C20]
-//@   assigns p.Will, p.CleanSession, p.ProtocolID, p.Duration, p.ClientID
-//@ func (*Disconnect).Unpack
-//@   nopanic [C20]
-//@   assigns p.Duration
-//@ func (*GwInfo).Unpack
-//@   nopanic [C20]
-//@   assigns p.GatewayID, p.GatewayAddress
-//@ func (*Pingreq).Unpack
-//@   nopanic [C20]
-//@   assigns p.ClientID
-//@ func (*Pingresp).Unpack
-//@   nopanic [C20]
-//@ func (*Puback).Unpack
-//@   nopanic [C20]
-//@   assigns p.TopicID, p.messageID, p.ReturnCode
-//@ func (*Pubcomp).Unpack
-//@   nopanic [C20]
-//@   assigns p.messageID
-//@ func (*Publish).Unpack
-//@   nopanic [C20]
-//@   assigns p.dup, p.QOS, p.Retain, p.TopicIDType, p.TopicID, p.messageID, p.Data
-//@ func (*Pubrec).Unpack
-//@   nopanic [C20]
-//@   assigns p.messageID
-//@ func (*Pubrel).Unpack
-//@   nopanic [C20]
-//@   assigns p.messageID
-//@ func (*Regack).Unpack
-//@   nopanic [C20]
-//@   assigns p.TopicID, p.messageID, p.ReturnCode
-//@ func (*Register).Unpack
-//@   nopanic [C20]
-//@   assigns p.TopicID, p.messageID, p.TopicName
+//@   ensures [C22] fields: result == nil ==> len(buf) == 3 && p.GatewayID == buf[0] && p.Duration == be16(buf, 1)
 //@ func (*SearchGw).Unpack
 //@   nopanic [C20]
 //@   assigns p.Radius
-//@ func (*Suback).Unpack
+//@   ensures [C22] fields: result == nil ==> len(buf) == 1 && p.Radius == buf[0]
+//@ func (*GwInfo).Unpack
 //@   nopanic [C20]
-//@   assigns p.QOS, p.TopicID, p.messageID, p.ReturnCode
-//@ func (*Subscribe).Unpack
+//@   assigns p.GatewayID, p.GatewayAddress
+//@   ensures [C22] fields: result == nil ==> len(buf) >= 1 && p.GatewayID == buf[0] && sameSlice(p.GatewayAddress, buf[1:])
+//@ func (*Auth).Unpack
 //@   nopanic [C20]
-//@   assigns p.dup, p.QOS, p.TopicIDType, p.messageID, p.TopicID, p.TopicName
-//@ func (*Unsuback).Unpack
+//@   assigns p.Reason, p.Method, p.Data
+//@   ensures [C22] fields: result == nil ==> len(buf) >= 2 + int(buf[1]) && p.Reason == buf[0] &&
+//@      strBytesEq(p.Method, buf[2:2+int(buf[1])]) && sameSlice(p.Data, buf[2+int(buf[1]):])
+//@ func (*Connect).Unpack
 //@   nopanic [C20]
-//@   assigns p.messageID
-//@ func (*Unsubscribe).Unpack
-//@   nopanic [C20]
-//@   assigns p.TopicIDType, p.messageID, p.TopicID, p.TopicName
-//@ func (*WillMsg).Unpack
-//@   nopanic [C20]
-//@   assigns p.WillMsg
-//@ func (*WillMsgReq).Unpack
-//@   nopanic [C20]
-//@ func (*WillMsgResp).Unpack
+//@   assigns p.Will, p.CleanSession, p.ProtocolID, p.Duration, p.ClientID
+//@   ensures [C22] fields: result == nil ==> len(buf) >= 5 && p.Will == fWill(buf[0]) && p.CleanSession == fClean(buf[0]) &&
+//@      p.ProtocolID == buf[1] && p.Duration == be16(buf, 2) && sameSlice(p.ClientID, buf[4:])
+//@ func (*Connack).Unpack
 //@   nopanic [C20]
 //@   assigns p.ReturnCode
-//@ func (*WillMsgUpd).Unpack
+//@   ensures [C22] fields: result == nil ==> len(buf) == 1 && uint8(p.ReturnCode) == buf[0]
+//@ func (*WillTopicReq).Unpack
 //@   nopanic [C20]
-//@   assigns p.WillMsg
+//@   ensures [C22] fields: result == nil ==> len(buf) == 0
 //@ func (*WillTopic).Unpack
 //@   nopanic [C20]
 //@   assigns p.QOS, p.Retain, p.WillTopic
-//@ func (*WillTopicReq).Unpack
+//@   ensures [C22] fields: result == nil ==> (len(buf) == 0 && len(p.WillTopic) == 0) ||
+//@      (len(buf) >= 2 && p.QOS == fQOS(buf[0]) && p.Retain == fRetain(buf[0]) && strBytesEq(p.WillTopic, buf[1:]))
+//@ func (*WillMsgReq).Unpack
 //@   nopanic [C20]
-//@ func (*WillTopicResp).Unpack
+//@   ensures [C22] fields: result == nil ==> len(buf) == 0
+//@ func (*WillMsg).Unpack
 //@   nopanic [C20]
-//@   assigns p.ReturnCode
+//@   assigns p.WillMsg
+//@   ensures [C22] fields: result == nil ==> sameSlice(p.WillMsg, buf)
+//@ func (*Register).Unpack
+//@   nopanic [C20]
+//@   assigns p.TopicID, p.messageID, p.TopicName
+//@   ensures [C22] fields: result == nil ==> len(buf) >= 5 && p.TopicID == be16(buf, 0) && p.messageID == be16(buf, 2) && strBytesEq(p.TopicName, buf[4:])
+//@ func (*Regack).Unpack
+//@   nopanic [C20]
+//@   assigns p.TopicID, p.messageID, p.ReturnCode
+//@   ensures [C22] fields: result == nil ==> len(buf) == 5 && p.TopicID == be16(buf, 0) && p.messageID == be16(buf, 2) && uint8(p.ReturnCode) == buf[4]
+//@ func (*Publish).Unpack
+//@   nopanic [C20]
+//@   assigns p.dup, p.QOS, p.Retain, p.TopicIDType, p.TopicID, p.messageID, p.Data
+//@   ensures [C22] fields: result == nil ==> len(buf) >= 5 && p.dup == fDUP(buf[0]) && p.QOS == fQOS(buf[0]) && p.Retain == fRetain(buf[0]) &&
+//@      p.TopicIDType == fTIT(buf[0]) && p.TopicID == be16(buf, 1) && p.messageID == be16(buf, 3) && sameSlice(p.Data, buf[5:])
+//@ func (*Puback).Unpack
+//@   nopanic [C20]
+//@   assigns p.TopicID, p.messageID, p.ReturnCode
+//@   ensures [C22] fields: result == nil ==> len(buf) == 5 && p.TopicID == be16(buf, 0) && p.messageID == be16(buf, 2) && uint8(p.ReturnCode) == buf[4]
+//@ func (*Pubcomp).Unpack
+//@   nopanic [C20]
+//@   assigns p.messageID
+//@   ensures [C22] fields: result == nil ==> len(buf) == 2 && p.messageID == be16(buf, 0)
+//@ func (*Pubrec).Unpack
+//@   nopanic [C20]
+//@   assigns p.messageID
+//@   ensures [C22] fields: result == nil ==> len(buf) == 2 && p.messageID == be16(buf, 0)
+//@ func (*Pubrel).Unpack
+//@   nopanic [C20]
+//@   assigns p.messageID
+//@   ensures [C22] fields: result == nil ==> len(buf) == 2 && p.messageID == be16(buf, 0)
+//@ func (*Subscribe).Unpack
+//@   nopanic [C20]
+//@   assigns p.dup, p.QOS, p.TopicIDType, p.messageID, p.TopicID, p.TopicName
+//@   ensures [C22] fields: result == nil ==> len(buf) >= 4 && p.dup == fDUP(buf[0]) && p.QOS == fQOS(buf[0]) && p.TopicIDType == fTIT(buf[0]) &&
+//@      p.messageID == be16(buf, 1) && p.TopicIDType != 3 &&
+//@      (p.TopicIDType == 0 ==> strBytesEq(p.TopicName, buf[3:])) &&
+//@      (p.TopicIDType != 0 ==> len(buf) == 5 && p.TopicID == be16(buf, 3))
+//@ func (*Suback).Unpack
+//@   nopanic [C20]
+//@   assigns p.QOS, p.TopicID, p.messageID, p.ReturnCode
+//@   ensures [C22] fields: result == nil ==> len(buf) == 6 && p.QOS == fQOS(buf[0]) && p.TopicID == be16(buf, 1) && p.messageID == be16(buf, 3) && uint8(p.ReturnCode) == buf[5]
+//@ func (*Unsubscribe).Unpack
+//@   nopanic [C20]
+//@   assigns p.TopicIDType, p.messageID, p.TopicID, p.TopicName
+//@   ensures [C22] fields: result == nil ==> len(buf) >= 4 && p.TopicIDType == fTIT(buf[0]) && p.messageID == be16(buf, 1) && p.TopicIDType != 3 &&
+//@      (p.TopicIDType == 0 ==> strBytesEq(p.TopicName, buf[3:])) &&
+//@      (p.TopicIDType != 0 ==> len(buf) == 5 && p.TopicID == be16(buf, 3))
+//@ func (*Unsuback).Unpack
+//@   nopanic [C20]
+//@   assigns p.messageID
+//@   ensures [C22] fields: result == nil ==> len(buf) == 2 && p.messageID == be16(buf, 0)
+//@ func (*Pingreq).Unpack
+//@   nopanic [C20]
+//@   assigns p.ClientID
+//@   ensures [C22] fields: result == nil ==> sameSlice(p.ClientID, buf)
+//@ func (*Pingresp).Unpack
+//@   nopanic [C20]
+//@   ensures [C22] fields: true
+//@ func (*Disconnect).Unpack
+//@   nopanic [C20]
+//@   assigns p.Duration
+//@   ensures [C22] fields: result == nil ==> (len(buf) == 0 && p.Duration == 0) || (len(buf) == 2 && p.Duration == be16(buf, 0))
 //@ func (*WillTopicUpd).Unpack
 //@   nopanic [C20]
 //@   assigns p.QOS, p.Retain, p.WillTopic
+//@   ensures [C22] fields: result == nil ==> (len(buf) == 0 && len(p.WillTopic) == 0) ||
+//@      (len(buf) >= 2 && p.QOS == fQOS(buf[0]) && p.Retain == fRetain(buf[0]) && strBytesEq(p.WillTopic, buf[1:]))
+//@ func (*WillTopicResp).Unpack
+//@   nopanic [C20]
+//@   assigns p.ReturnCode
+//@   ensures [C22] fields: result == nil ==> len(buf) == 1 && uint8(p.ReturnCode) == buf[0]
+//@ func (*WillMsgUpd).Unpack
+//@   nopanic [C20]
+//@   assigns p.WillMsg
+//@   ensures [C22] fields: result == nil ==> sameSlice(p.WillMsg, buf)
+//@ func (*WillMsgResp).Unpack
+//@   nopanic [C20]
+//@   assigns p.ReturnCode
+//@   ensures [C22] fields: result == nil ==> len(buf) == 1 && uint8(p.ReturnCode) == buf[0]
 
 //@ inline (*MessageIDProperty).MessageID
 //@ inline (*MessageIDProperty).SetMessageID
